@@ -276,6 +276,9 @@ class Facts:
             import names
             txt = names.apply(txt, self.renames)
         self.j = json.loads(txt)
+        if getattr(self.renames, 'structured', None):
+            import names
+            names.apply_structured(self.j, self.renames.structured)
         self.path = path
         self.crate = self.j['crate']
         self.config = self.j['config']
